@@ -79,11 +79,24 @@ func main() {
 	overlayF := flag.String("overlay", "", "JSON file: absolute path -> replacement content (probe tier)")
 	explain := flag.String("explain", "", "print a stored replay file")
 	list := flag.Bool("list", false, "list properties")
+	dumpA := flag.String("dump-anchors", "", "write the fingerprint table of the unexported functions of -repo to this file (run on the confirmed tree)")
 	sweepF := flag.String("sweep", "", "file listing repo-relative .go files to mutate (generic mutation sweep)")
 	sweepOut := flag.String("out", "sweep.json", "sweep result file")
 	sweepPar := flag.Int("par", 6, "parallel probes in a sweep")
 	sweepOps := flag.String("ops", "", "restrict sweep to these operators (e.g. NEG,ROR)")
 	flag.Parse()
+	if *dumpA != "" {
+		p, err := loadProg(loadOpts{dir: *repo, noCG: true})
+		if err != nil || len(p.LoadErrs) > 0 {
+			fmt.Println("load failed", err, p.LoadErrs)
+			os.Exit(2)
+		}
+		if err := dumpAnchors(p, *dumpA); err != nil {
+			fmt.Println(err)
+			os.Exit(2)
+		}
+		return
+	}
 	if *sweepF != "" {
 		runSweep(*repo, *verif, *sweepF, *sweepOut, *sweepPar, *sweepOps)
 		return
